@@ -174,6 +174,24 @@ or a skipped segment followed by a reported token.",
         enum_cases(),
         |c: &LabelCase| check_tokens(&to_ref(c)),
     );
+    rep.run_enum(
+        "long-sentences",
+        "sentences of 100,000 characters (ASCII and 4-byte) with periodic label patterns incl. \
+long runs of skipped segments",
+        false,
+        (0..4usize).map(|k| {
+            let n = 100_000;
+            let text: String = (0..n).map(|i| if k % 2 == 0 { (b'a' + (i % 26) as u8) as char } else { ['𠀋', 'あ', 'b', '😀'][i % 4] }).collect();
+            let labels = (0..n - 1).map(|i| match k {
+                0 => [1u8, 0, 0, 1, 2, 1, 2, 1, 0][i % 9],
+                1 => [2u8, 1, 2, 1, 2, 1, 0, 1][i % 8],
+                2 => (i % 3 == 0) as u8,
+                _ => if i % 1000 < 990 { 2 } else { 1 },
+            }).collect();
+            LabelCase { text, labels, n_tags: k % 3 }
+        }),
+        |c: &LabelCase| check_tokens(&to_ref(c)),
+    );
     let n = rep.n(50000, 1000000);
     rep.run_prop(
         "random-labels",
